@@ -83,15 +83,12 @@ Proof.
     destruct (b_block flv (slv + 1) l b en) as [en1 os] eqn:Eb. cbn [snd] in Hin. apply in_app_or in Hin. destruct Hin as [Hin|Hin].
     + eapply idm_mono; [|eapply (IHb flv (slv + 1) l en); rewrite Eb; exact Hin]. intros m Hm. right. apply in_or_app. left. exact Hm.
     + eapply idm_mono; [|eapply IHe; eauto]. intros m Hm. right. apply in_or_app. right. apply in_or_app. left. exact Hm.
-  - intros n0 vl e1 e2 e3 b l _ _ _ _ _ _ IH1 IH2 IH3 IHb flv slv reg en o Hin. cbn [b_stat snd m2_stat] in *.
+  - intros n0 vl e1 e2 e3 b l _ _ _ _ _ IH1 IH2 IH3 IHb flv slv reg en o Hin. cbn [b_stat snd m2_stat] in *.
     apply in_app_or in Hin. destruct Hin as [Hin|[<-|Hin]].
     + apply in_tag_if in Hin. destruct Hin as (o0 & Hin & (Hl & _) & _). rewrite Hl.
       apply in_app_or in Hin. destruct Hin as [Hin|Hin]; [|apply in_app_or in Hin; destruct Hin as [Hin|Hin]].
       * eapply idm_mono; [|eapply IH1; eauto]. intros m Hm. right. apply in_or_app. right. apply in_or_app. left. exact Hm.
-      * assert (Hin' : exists o1, In o1 (b_exp flv slv reg e2 en) /\ s_loc o1 = s_loc o0).
-        { destruct (has_func e3); [|eauto]. apply in_tag_if in Hin. destruct Hin as (o1 & H1 & (Hl1 & _) & _). eauto. }
-        destruct Hin' as (o1 & H1 & <-).
-        eapply idm_mono; [|eapply IH2; eauto]. intros m Hm. right. do 2 (apply in_or_app; right). apply in_or_app. left. exact Hm.
+      * eapply idm_mono; [|eapply IH2; eauto]. intros m Hm. right. do 2 (apply in_or_app; right). apply in_or_app. left. exact Hm.
       * eapply idm_mono; [|eapply IH3; eauto]. intros m Hm. right. do 3 (apply in_or_app; right). apply in_or_app. left. exact Hm.
     + cbn [s_loc decl_occ snd]. split; right; apply in_or_app; left; [left; reflexivity|right; left; reflexivity].
     + eapply idm_mono; [|eapply IHb; eauto]. intros m Hm. right. do 4 (apply in_or_app; right). apply in_or_app. left. exact Hm.
